@@ -53,9 +53,10 @@ Mechs == {
    ovrs |-> TTLClasses, lam |-> 0],
   [m |-> "jwt_finalizer", kind |-> "token", exps |-> {"near", "mid", "far"}, cfgs |-> {"unset"},
    ovrs |-> {"unset", "near", "mid"}, lam |-> 0],
-  [m |-> "cc_finalizer", kind |-> "token", exps |-> {"absent", "near", "mid", "far"}, cfgs |-> TTLClasses,
+  (* justpassed: the token endpoint says expires_in = -5 (a token that is over already) *)
+  [m |-> "cc_finalizer", kind |-> "token", exps |-> {"absent", "near", "mid", "far", "justpassed"}, cfgs |-> TTLClasses,
    ovrs |-> TTLClasses, lam |-> 0],
-  [m |-> "cc_strategy", kind |-> "token", exps |-> {"absent", "near", "mid", "far"}, cfgs |-> TTLClasses,
+  [m |-> "cc_strategy", kind |-> "token", exps |-> {"absent", "near", "mid", "far", "justpassed"}, cfgs |-> TTLClasses,
    ovrs |-> {"unset"}, lam |-> 0],
   [m |-> "remote_authorizer", kind |-> "plain", exps |-> {"absent"}, cfgs |-> TTLClasses,
    ovrs |-> TTLClasses, lam |-> 0],
